@@ -178,6 +178,61 @@ theorem c16_published_accepted (key : Nat) (st : HTs) (steps : List (Nat × Nat)
 theorem c16_orig_violates :
     ¬ (publishAllOrig 1 ⟨7, 0⟩ [(6, 0), (7, 0), (6, 0)]).Nodup := by decide
 
+/-! ### ties to the source text (regenerated from /repo on every run) -/
+
+/-- How the model reads the CBOR 5-tuple that is signed. -/
+def encItems : Nat × Nat × Nat × Nat × Nat → Items
+  | (v, k, t, l, b) => ⟨v, k, ⟨t, l⟩, b⟩
+
+/-- `WrappedMessage::verify` as `rs2lean` translates the current Rust text — one check of the message's
+    *own* key over the re-encoded tuple (version, key, timestamp, lamport, body), in this order, against the
+    message's signature — is the model's signature check. -/
+theorem c16_verify_is_source (w : Wire) :
+    (if verifySig w.key w.items w.sig then (none : Option Nat) else some 2) =
+      P2.Extracted.C16.wrappedVerifyT w.version w.key w.ts.wall w.ts.logical w.body encItems
+        (fun k i => verifySig k i w.sig) := by
+  unfold P2.Extracted.C16.wrappedVerifyT
+  have : encItems (w.version, w.key, (w.ts.wall, w.ts.logical).1, (w.ts.wall, w.ts.logical).2, w.body) = w.items := rfl
+  rw [this]
+  by_cases h : verifySig w.key w.items w.sig = true <;> simp [h]
+
+/-- `WrappedMessage::sign` as translated: the signature of `new` is over (MESSAGE_VERSION, key, timestamp,
+    lamport, body) — the same tuple shape `verify` re-encodes. -/
+theorem c16_sign_is_source (key : Nat) (ts : HTs) (body : Nat) :
+    (wrap key ts body).sig =
+      P2.Extracted.C16.wrappedSignT P2.Extracted.C16.messageVersion key ts.wall ts.logical body encItems
+        (fun i => sign key i) := by
+  rfl
+
+/-- `from_bytes` as translated: the version check comes first and returns before `verify` is reached
+    (first component = "verify was executed"); the model's `unwrap` has exactly this order. -/
+theorem c16_from_bytes_is_source (w : Wire) (sigB : Nat) :
+    let t := P2.Extracted.C16.fromBytesT w.version w.key sigB w.ts.wall w.ts.logical w.body
+               P2.Extracted.C16.messageVersion
+    unwrap (.wire w) =
+      (match t.2 with
+       | some _ => .error .version
+       | none => if verifySig w.key w.items w.sig then .ok w else .error .signature) ∧
+    (t.1 = true ↔ w.version = messageVersion) := by
+  unfold P2.Extracted.C16.fromBytesT unwrap
+  have hm : P2.Extracted.C16.messageVersion = messageVersion := by decide
+  rw [hm]
+  by_cases h : w.version = messageVersion
+  · simp [h]
+  · simp [h]
+
+/-- Text ties for what is outside the translator's subset: the publisher stores `timestamp.increment()`
+    and wraps with that timestamp and the forge's key; `new` signs (key, timestamp, body) with the same key it
+    embeds; the wire tuple and its decoding have the documented field order. -/
+theorem c16_source_shape :
+    P2.Extracted.C16.publishTimestampUpdate = "timestamp.increment()" ∧
+    P2.Extracted.C16.publishWrapArgs = "message, timestamp, self.forge.signing_key()" ∧
+    P2.Extracted.C16.newSignArgs = "signing_key, verifying_key, timestamp, &body" ∧
+    P2.Extracted.C16.toBytesTuple =
+      "self.version, self.verifying_key, self.signature, timestamp, logical, &self.body," ∧
+    P2.Extracted.C16.fromBytesTupleLet = "version, verifying_key, signature, timestamp, logical, body" := by
+  decide
+
 /-! ### non-vacuity -/
 
 example : (publishAll 1 ⟨7, 0⟩ [(6, 0), (7, 0), (6, 0)]).map (·.ts) = [⟨7, 1⟩, ⟨7, 2⟩, ⟨7, 3⟩] := by decide
